@@ -3,7 +3,7 @@ CONSTANTS
   Nil = Nil
   Locked = TRUE
   CheckUnderLock = TRUE
-  Canon = TRUE
+  Level = 1
 INVARIANTS
   RightSet
   NoTornRead
